@@ -124,6 +124,7 @@ type FnCtx struct {
 	escaped map[string]bool
 	tainted map[string]bool
 	usedCallAssert map[string]bool
+	devirtUsed map[string]string // function-valued fields resolved through a fieldis declaration
 	retLocal func(string) (Val, bool) // named locals at the return being checked
 	missingCall string // set when a clause asks for the result of a call site that does not exist
 	iters map[*ssa.Range]*iterInfo
